@@ -43,7 +43,7 @@ MIN_REACH = {
     "recoveries_exact": {"quick": 450, "thorough": 4000},
     "harvester_file_checked": {"quick": 40, "thorough": 400},
     "partial_write_states": {"quick": 100, "thorough": 1000},
-    "syscall_crash_points": {"quick": 8, "thorough": 60},
+    "syscall_crash_points": {"quick": 8, "thorough": 50},
 }
 TIME_BUDGET = {"quick": 500, "thorough": 3400}
 CASE_TIMEOUT = {"quick": 400, "thorough": 1200}
@@ -76,9 +76,9 @@ def cases(ctx):
     # or by pandas: the victim runs in a fresh interpreter and is SIGKILLed at the entry of its k-th
     # open/write/pwrite/ftruncate/close/rename/unlink on the data file or its temporary sibling
     SP = ctx.pick(8, 16)
-    for farmer in (("harvester",) if ctx.quick else ("harvester", "sampler", "harvester")):
+    for farmer in (("harvester",) if ctx.quick else ("harvester", "sampler", "harvester", "harvester", "sampler", "harvester")):
         for part in range(SP):
-            yield {"strace": True, "farmer": farmer, "victim": "reap", "n": 4 if ctx.quick else 6, "bs": 2, "shuffle": bool(idx % 2),
+            yield {"strace": True, "farmer": farmer, "victim": "reap", "n": 4 if ctx.quick else 4 + idx % 4, "bs": 2 if idx % 2 else 3, "shuffle": bool(idx % 2),
                    "grown": [], "idx": idx, "depth2": 0, "part": [part, SP], "max_points": ctx.pick(3, 1000)}
         idx += 1
     if not ctx.quick:
